@@ -61,6 +61,14 @@ SPEC = [
         # first statement outside the supported subset, and the rest is checked not to assign them
         "fields": ["threshold", "branching_factor", "_merge_accept_fn"],
         "partial_init": True}),
+    # the scikit-learn wrapper: when `labels_` is (re)computed.  Calls of untranslated methods of the object itself are logged
+    # (super().fit = 10, get_assignments = 11) and their results are inputs; `compute_labels` is an input
+    ("bblean/sklearn.py", {
+        "classes": ["BitBirch"], "alias": {"BitBirch": "SkBitBirch"},
+        "methods": ["fit", "partial_fit", "fit_predict"],
+        "fields": ["labels_", "subcluster_centers_", "subcluster_labels_", "_n_features_out"],
+        "log_field": "calls_", "self_inputs": ["compute_labels"],
+        "self_calls": {"get_assignments": 11}, "super_calls": {"fit": 10}}),
     ("bblean/cli.py", {"functions": ["_validate_output_dir"]}),
     # how `bb fps-from-smiles` sizes its batches and pads the part numbers (a function nested in the command)
     ("bblean/cli.py", {"nested_functions": [("_fps_from_smiles", "parse_num_per_batch")]}),
@@ -89,7 +97,9 @@ LOOP_EXTERNALS = {"_get_fps_file_num"}
 # methods of handles / child nodes whose calls are logged (code in the log), and external functions whose value is an input
 HANDLE_METHODS = {"merge_subcluster": 1, "insert_bf_subcluster": 2, "update": 4}
 LOGGED_EXTERNALS = {"_split_node": 3}
-EXTERNAL_ASSIGN = {"_jt_sim_arr_vec_packed", "np.argmax"}
+EXTERNAL_ASSIGN = {"_jt_sim_arr_vec_packed", "np.argmax", "np.stack"}
+# decorators that wrap a method without changing what it computes (parameter validation of scikit-learn)
+TRANSPARENT_DECORATORS = {"_fit_context"}
 # statements that are dropped (diagnostics only)
 DROPPED_CALLS = {"warnings.warn", "time.sleep"}
 # module-level constants that become parameters
@@ -255,6 +265,10 @@ class Translator:
                 if cls and e.attr in self.classes[cls].get("props", {}):
                     flds = self.classes[cls]["fields"]
                     return "(" + " ".join([self.classes[cls]["props"][e.attr], "expf"] + [cx["selfattrs"][f] for f in flds]) + ")"
+                if cls and e.attr in self.classes[cls].get("self_inputs", []):
+                    sname = ident("self_" + e.attr)
+                    cx["symbols"].add(sname)
+                    return sname
                 raise Unsupported(f"unknown attribute {t} (line {e.lineno})")
             if isinstance(e.value, ast.Name) and e.value.id in cx.get("objparams", {}):
                 ocls = cx["objparams"][e.value.id]
@@ -444,6 +458,8 @@ class Translator:
             return f"(PV.zfill {self.expr(f.value, cx)} {self.expr(e.args[0], cx)})"
         if isinstance(f, ast.Name) and f.id == "str" and len(e.args) == 1 and not e.keywords:
             return f"(PV.strOf {self.expr(e.args[0], cx)})"
+        if t == "np.arange" and len(e.args) == 2 and not e.keywords:
+            return f"(PV.arange {self.expr(e.args[0], cx)} {self.expr(e.args[1], cx)})"
         if t == "math.ceil" and len(e.args) == 1 and not e.keywords:
             return f"(PV.ceilF {self.expr(e.args[0], cx)})"
         if isinstance(f, ast.Name) and f.id == "float" and len(e.args) == 1 and not e.keywords:
@@ -533,6 +549,26 @@ class Translator:
             def hname(a_):
                 return isinstance(a_, ast.Name) and (a_.id in cx.get("handles", set()) or a_.id in cx.get("tokens", set()))
             call_ = s.value if isinstance(s, (ast.Assign, ast.Expr)) and isinstance(s.value, ast.Call) else None
+            # super().<method>(...) : logged
+            if isinstance(s, ast.Expr) and call_ is not None and isinstance(call_.func, ast.Attribute) \
+                    and isinstance(call_.func.value, ast.Call) and isinstance(call_.func.value.func, ast.Name) \
+                    and call_.func.value.func.id == "super" and call_.func.attr in self.classes[cls_].get("super_calls", {}):
+                new = log_items([f"(PV.int {self.classes[cls_]['super_calls'][call_.func.attr]})"])
+                lean = "self_" + logf
+                cx2 = dict(cx, selfattrs=dict(cx["selfattrs"], **{logf: lean}))
+                return pad + f"let {lean} := {new}\n" + self.stmts(rest, cx2, kind, end, ind)
+            # self.<field> = self.<untranslated method>() : logged; the result is an input named after this function and the method
+            if isinstance(s, ast.Assign) and call_ is not None and isinstance(call_.func, ast.Attribute) \
+                    and isinstance(call_.func.value, ast.Name) and call_.func.value.id == "self" \
+                    and call_.func.attr in self.classes[cls_].get("self_calls", {}) and not call_.args and not call_.keywords \
+                    and len(s.targets) == 1 and flat(s.targets[0]) and flat(s.targets[0]).startswith("self.") \
+                    and s.targets[0].attr in cx["selfattrs"]:
+                sname = ident(f"{cx.get('fn_name', 'f')}_{call_.func.attr}")
+                cx["symbols"].add(sname)
+                new = log_items([f"(PV.int {self.classes[cls_]['self_calls'][call_.func.attr]})"])
+                lean, fl = "self_" + logf, "self_" + s.targets[0].attr
+                cx2 = dict(cx, selfattrs=dict(cx["selfattrs"], **{logf: lean, s.targets[0].attr: fl}))
+                return pad + f"let {lean} := {new}\n" + pad + f"let {fl} := {sname}\n" + self.stmts(rest, cx2, kind, end, ind)
             # x = self.<handle list>[i]  : x is a handle
             if isinstance(s, ast.Assign) and len(s.targets) == 1 and isinstance(s.targets[0], ast.Name) \
                     and isinstance(s.value, ast.Subscript) and flat(s.value.value) and flat(s.value.value).startswith("self.") \
@@ -726,6 +762,10 @@ class Translator:
                 # the callee's symbol parameters `<param>_<attr>` of its handle parameters: the same attribute of the argument
                 for sy in info.symbols:
                     hp = [h for h in info.handles if sy.startswith(ident(h + "_"))]
+                    if not hp:
+                        cx["symbols"].add(sy)        # an input of the callee is an input of the caller
+                        args.append(sy)
+                        continue
                     if len(hp) != 1 or s.value.keywords:
                         raise Unsupported(f"call of {f.attr}, whose parameter {sy} cannot be bound (line {s.lineno})")
                     a_ = s.value.args[info.params.index(hp[0])]
@@ -855,7 +895,8 @@ class Translator:
                 return pad + end(cx)
             if cx.get("mutating"):
                 flds = self.classes[cx["cls"]]["fields"]
-                return pad + "[" + ", ".join([self.expr(s.value, cx)] + [cx["selfattrs"][x] for x in flds]) + "]"
+                rv = '(PV.str "self")' if isinstance(s.value, ast.Name) and s.value.id == "self" else self.expr(s.value, cx)
+                return pad + "[" + ", ".join([rv] + [cx["selfattrs"][x] for x in flds]) + "]"
             if cx.get("ret_effects"):
                 return pad + f"eff_ ++ [{self.expr(s.value, cx)}]"
             return pad + (self.expr(s.value, cx) if kind == "V" else self.lexpr(s.value, cx))
@@ -900,6 +941,8 @@ class Translator:
         # a decorator changes what the name denotes (caching, wrapping): only the ones whose meaning the translation
         # accounts for are accepted
         for dec in fn.decorator_list:
+            if isinstance(dec, ast.Call) and flat(dec.func) in TRANSPARENT_DECORATORS:
+                continue
             if flat(dec) not in ("classmethod", "staticmethod", "property"):
                 raise Unsupported(f"decorator @{src_of(dec)} on {qual} (line {fn.lineno})")
         a = fn.args
@@ -985,7 +1028,7 @@ class Translator:
               "locals": set(), "opaque": opaque, "dataclass_fields": fields if is_classmethod else None,
               "written": [], "cls": cls, "objparams": objparams, "listparams": listparams, "mutating": mutating,
               "status_first": status_first, "closures": set(getattr(fn, "_closures", [])), "handles": handle_params,
-              "ret_effects": is_fproc and has_return_value}
+              "ret_effects": is_fproc and has_return_value, "fn_name": fn.name}
         partial = is_init and self.classes[cls].get("partial_init")
         if partial:
             def end(c):
@@ -1176,6 +1219,9 @@ class Translator:
             c["handles"] = list(spec.get("handles", []))
             c["handle_lists"] = list(spec.get("handle_lists", []))
             c["log_field"] = spec.get("log_field")
+            c["self_inputs"] = list(spec.get("self_inputs", []))
+            c["self_calls"] = dict(spec.get("self_calls", {}))
+            c["super_calls"] = dict(spec.get("super_calls", {}))
             if c["log_field"]:
                 c["fields"] = list(c["fields"]) + [c["log_field"]]
             c["consts"] = {n.targets[0].id: n.value.value for n in cdef.body
@@ -1200,15 +1246,18 @@ class Translator:
                     break
                 k = cc["bases"][0]
             c["init_owner"] = owner
-            self.classes[cname] = c
-            if owner == cname:
+            key = spec.get("alias", {}).get(cname, cname)      # a second class of the same name in another module
+            self.classes[key] = c
+            if key != cname:
+                c["attrs"] = list(c["fields"])
+            elif owner == cname:
                 c["attrs"] = self.init_attrs(meths["__init__"])
             elif owner is not None:
                 c["attrs"] = self.classes[owner]["attrs"]
             for m in spec.get("methods", []):
                 if m in meths:
                     nm = m.strip("_")
-                    info, cxm = self.emit_fn(meths[m], f"{cname}_{nm}", path, f"{cname}.{m}", cls=cname)
+                    info, cxm = self.emit_fn(meths[m], f"{key}_{nm}", path, f"{cname}.{m}", cls=key)
                     if m == "__init__":
                         c["init_info"] = info
                     if any(flat(d) == "property" for d in meths[m].decorator_list):
